@@ -5,6 +5,7 @@ CONSTANTS
   DropTables = TRUE
   SaveAll = TRUE
 INVARIANT ReadsLast
+INVARIANT EmptyStaysEmpty
 INVARIANT SizesDiffer
 VIEW MCView
 CHECK_DEADLOCK FALSE
